@@ -32,6 +32,22 @@ def fresh_packages(dname):
     return _FRESH[dname]
 
 
+def prefill_fresh(dnames=None):
+    """Fill the references from pristine processes, one per module (to be called in the parent before workers are forked):
+    a reference computed in a process that has already exported other things would share whatever state leaks there."""
+    import subprocess, sys, os
+
+    jobs = [(d, top) for d in (dnames or list(dags.ALL)) if d not in _FRESH for top in dags.ALL[d]()["modules"]]
+    procs = [(d, top, subprocess.Popen([sys.executable, "-W", "ignore", "-m", "hv.checks.c07_fresh", d, top], stdout=subprocess.PIPE, stderr=subprocess.PIPE, text=True, env=dict(os.environ)))
+             for d, top in jobs]
+    for d, top, pr in procs:
+        out, err = pr.communicate(timeout=600)
+        if pr.returncode != 0:
+            raise RuntimeError(f"reference build of {d}/{top} failed: {err[-400:]}")
+        _FRESH.setdefault(d, {})[top] = bytes.fromhex(out.strip().splitlines()[-1])
+    return len(jobs)
+
+
 LISTS = {"dag1": [["T", "T2"], ["T2", "C2", "T"], ["LB", "M"]], "dag2": [["P", "Q"], ["Q", "N", "P"]]}
 _FRESH_LISTS = {}
 
@@ -243,13 +259,18 @@ SUBPROC = r"""
 import sys, json
 sys.path.insert(0, %r)
 from hv.checks import c07
-r = c07._one((%r, %r))
+dname, hist = %r, %r
+# the references come from the parent (each built in a pristine process of its own), not from this process
+c07._FRESH[dname] = {k: bytes.fromhex(v) for k, v in json.loads(sys.stdin.read()).items()}
+r = c07._one((dname, hist))
 print(json.dumps(r))
 """
 
 
 def run(ctx):
     total = 0
+    n = prefill_fresh(list(dags.DAGS))
+    ctx.fam("reference_builds_in_pristine_processes", processes=n)
     for dname in dags.DAGS:
         design = dags.DAGS[dname]()
         calls = calls_for(design)
@@ -287,18 +308,30 @@ def run(ctx):
         ctx.fam(dname + "/renamed_after", histories=len(ritems))
         total += len(items)
         ctx.sample(dict(dag=dname, history=[[k, list(ms)] for k, ms in hists[len(hists) // 2]]))
-    # fresh sub-processes: the in-worker "fresh build" must agree with a genuinely fresh process
+    # pristine processes: a history that is the very first thing its process does, judged against references that were each
+    # built in a pristine process of their own - whatever leaks from one export to the next inside a process shows here
     sub = 0
+    jobs = []
     for dname in dags.DAGS:
         design = dags.DAGS[dname]()
         calls = calls_for(design)
-        for hh in ([calls[0]], [calls[3], calls[-1]], [calls[-2], calls[1]]):
-            r = subprocess.run([sys.executable, "-W", "ignore", "-c", SUBPROC % (str(ROOT), dname, [[k, list(ms)] for k, ms in hh])],
-                               capture_output=True, text=True, env=dict(os.environ, PYTHONHASHSEED="0"), timeout=300)
+        protos = [c for c in calls if c[0] == "to_proto" and len(c[1]) == 1]
+        hs = [[c] for c in protos] + [[calls[0]], [calls[3], calls[-1]], [calls[-2], calls[1]]]
+        if not ctx.quick:
+            hs += [[a, b_] for a in protos for b_ in protos if a != b_]
+        ref = json.dumps({k: v.hex() for k, v in _FRESH[dname].items()})
+        for hh in hs:
+            jobs.append((dname, hh, ref))
+    for k0 in range(0, len(jobs), 24):
+        batch = jobs[k0:k0 + 24]
+        procs = [subprocess.Popen([sys.executable, "-W", "ignore", "-c", SUBPROC % (str(ROOT), dname, [[k, list(ms)] for k, ms in hh])], stdin=subprocess.PIPE, stdout=subprocess.PIPE,
+                                  stderr=subprocess.PIPE, text=True, env=dict(os.environ, PYTHONHASHSEED="0")) for dname, hh, ref in batch]
+        for (dname, hh, ref), pr in zip(batch, procs):
+            out, err = pr.communicate(ref, timeout=600)
             sub += 1
-            last = r.stdout.strip().splitlines()[-1] if r.stdout.strip() else "ERR"
+            last = out.strip().splitlines()[-1] if out.strip() else "ERR"
             if last != "null" and not last.startswith('["ok_state"'):
-                ctx.violation(dict(dag=dname, kind="subprocess", first_call="-", what=last[:60]), dict(dag=dname, history=[[k, list(ms)] for k, ms in hh]), last + r.stderr[-300:])
+                ctx.violation(dict(dag=dname, kind="pristine_process", first_call=hh[0][0], what=last[:60]), dict(dag=dname, history=[[k, list(ms)] for k, ms in hh], pristine=True), last + err[-300:])
     ctx.count(states=sub, transitions=sub, traces_validated_against_impl=sub)
     ctx.fam("fresh_subprocesses", runs=sub)
     ctx.assume("byte equality of deterministic protobuf serialisations", "no state merging: 'same set of elaborated modules' does not imply the same cache contents")
